@@ -117,7 +117,13 @@ func (s *Server) handleConnection(ctx context.Context, conn net.Conn) {
 		return
 	}
 
-	s.stats.incrementConnections()
+	// The limit was checked when the socket was accepted, but other sockets may
+	// have finished their handshake since: take the slot only if one is left.
+	if err := s.stats.tryIncrementConnections(); err != nil {
+		dlog.Server.Error(err)
+		sshConn.Close()
+		return
+	}
 	// The slot belongs to the connection, not to a shell request: give it back
 	// exactly once when the connection ends, whatever happened on it.
 	defer s.stats.decrementConnections()
